@@ -27,7 +27,7 @@ POSTGRESQL_BUILTINS = {
     "last_value", "nth_value",
     "coalesce", "nullif", "greatest", "least", "cast", "concat", "length", "lower", "upper", "substring", "substr",
     "trim", "ltrim", "rtrim", "replace", "position", "to_char", "to_date", "to_timestamp", "date_part", "date_trunc",
-    "extract", "age", "now",
+    "extract", "age", "now", "date",
 }
 
 SQL_INLINE_OPERATORS = {"+", "-", "*", "/", "<", "<=", ">", ">=", "=", "!=", "<>", "AND", "OR", "%"}
@@ -102,3 +102,9 @@ POSTGRESQL_JOIN_KEYWORDS = {"INNER JOIN", "LEFT JOIN", "RIGHT JOIN", "FULL JOIN"
                             "LEFT OUTER JOIN", "RIGHT OUTER JOIN", "FULL OUTER JOIN", "JOIN"}
 SQLITE_JOIN_KEYWORDS = {"INNER JOIN", "LEFT JOIN", "CROSS JOIN", "LEFT OUTER JOIN", "JOIN",
                         "RIGHT JOIN", "FULL JOIN", "RIGHT OUTER JOIN", "FULL OUTER JOIN"}  # 3.39+
+
+# keywords that look like function calls in templates (NAME followed by '(') but are syntax
+SQL_SYNTAX_WORDS = {"case", "when", "then", "else", "end", "cast", "and", "or", "not", "in", "is", "null", "as", "over", "partition",
+                    "by", "order", "distinct", "from", "select", "exists", "between", "like"}
+POSTGRESQL_TYPES = {"BIGINT", "INTEGER", "INT", "SMALLINT", "DOUBLE PRECISION", "REAL", "NUMERIC", "DECIMAL", "FLOAT", "VARCHAR",
+                    "TEXT", "CHAR", "BOOLEAN", "DATE", "TIMESTAMP", "TIME", "INTERVAL"}
